@@ -15,6 +15,8 @@ structure Cfg where
   central : Bool
   conservative : Bool
   axis : Nat
+  cornerWeight : Option Rat := none
+  periodic : List Bool := []
 
 def parseMethod (s : String) : Except String Method :=
   match s with
@@ -28,8 +30,11 @@ def parseCfg (j : Json) : Except String Cfg := do
   let c ← (match fldOpt j "central" with | some v => getB v | none => pure true)
   let cons ← (match fldOpt j "conservative" with | some v => getB v | none => pure true)
   let ax ← (match fldOpt j "axis" with | some v => getN v | none => pure 0)
+  let cwt ← (match fldOpt j "corner_weight" with | some v => do pure (some (← getQ v)) | none => pure none)
+  let per ← (match fldOpt j "periodic" with | some (Json.arr bs) => bs.toList.mapM getB | _ => pure [])
   pure { cls := ← fldS j "cls", shape := ← fldNs j "shape", lo := ← fldQs j "lo", dx := ← fldQs j "dx",
-         op := ← fldS j "op", method := m, central := c, conservative := cons, axis := ax }
+         op := ← fldS j "op", method := m, central := c, conservative := cons, axis := ax,
+         cornerWeight := cwt, periodic := per }
 
 def Cfg.dim (c : Cfg) : Nat :=
   match c.cls with
@@ -62,7 +67,12 @@ def applyAt (c : Cfg) (a : Arr Rat) (o : List Int) : Except String Rat := do
   match c.cls, c.op with
   | _, "d_d" => pure (d1 c.method (c.dx.getD c.axis 1) a sp c.axis)
   | _, "d2_d2" => pure (d2 (c.dx.getD c.axis 1) a sp c.axis)
-  | "cart", "laplace" => pure (cartLaplace c.dx a [] sp)
+  | "cart", "laplace" =>
+    match c.cornerWeight, c.shape with
+    | some w, [nx, ny] =>
+      if w = 0 then pure (cartLaplace c.dx a [] sp)   -- `corner_weight == 0`: the 5-point kernel
+      else pure (cartLaplace9 w dr dz (c.periodic.getD 0 false) (c.periodic.getD 1 false) nx ny a i j)
+    | _, _ => pure (cartLaplace c.dx a [] sp)
   | "cart", "gradient" => pure (cartGradient c.method c.dx a [] (oc.getD 0 0) sp)
   | "cart", "gradient_squared" => pure (cartGradientSquared c.central c.dx a sp)
   | "cart", "divergence" => pure (cartDivergence c.method c.dx a [] sp)
